@@ -121,10 +121,22 @@ def subspaces(tier):
             for salt in (0, 1, 2):
                 yield {'fmt': 'Mico8', 'recs': [[0x5c, 0, nw]], 'entry': None, 'opts': [], 'salt': salt}
     subs.append(('ti-dsk-and-mico8', dskmico()))
+
+    def multifile():
+        # several source files, each with or without an (offset) suffix
+        for f in ('Moto', 'Intel', 'Intel32', 'C'):
+            for offs in itertools.product((None, 0, 0x10, 0x1000), repeat=2):
+                for o in ([], [['-R', '0x100']]):
+                    yield {'fmt': f, 'files': [{'rec': [0x41, 0x300, 5], 'off': offs[0]}, {'rec': [0x41, 0x200, 4], 'off': offs[1]}], 'opts': o}
+            for offs in itertools.product((None, 0x20), repeat=3):
+                yield {'fmt': f, 'files': [{'rec': [0x41, 0x300 + 0x40 * i, 3], 'off': offs[i]} for i in range(3)], 'opts': []}
+    subs.append(('several-files-with-offsets', multifile()))
     return subs
 
 
 def describe(case):
+    if 'files' in case:
+        return 'p2hex -F %s %s  on %s' % (case['fmt'], ' '.join(' '.join(o) for o in case['opts']), ['cpu=%02x start=%x len=%d%s' % (tuple(f['rec']) + ('' if f['off'] is None else ' (offset %x)' % f['off'],)) for f in case['files']])
     return 'p2hex %s %s  on %s%s' % ('-F ' + case['fmt'] if case['fmt'] not in (None, 'PIC', 'AVR') else '(default format)',
                                      ' '.join(' '.join(o) for o in case['opts']), [('cpu=%02x start=%x len=%d' % tuple(r)) for r in case['recs']],
                                      ' entry=%x' % case['entry'] if case['entry'] is not None else '')
@@ -174,7 +186,43 @@ def ev_wordlist(case):
     return core.R(True, 'decoded-ok', states=['%s/%d' % (fmt, nw)])
 
 
+def ev_multifile(case):
+    core.fresh()
+    fmt = case['fmt']
+    names = []
+    want = {}
+    R = 0
+    for o in case['opts']:
+        if o[0] == '-R':
+            R = int(o[1], 16)
+    for i, f in enumerate(case['files']):
+        cpu, st, ln = f['rec']
+        data = payload(ln, 40 * i)
+        core.put('f%d.p' % i, pfile.write([dict(kind='data', cpu=cpu, seg=1, gran=1, start=st, data=data, short=True)]))
+        names.append('f%d.p' % i + ('' if f['off'] is None else '(%s)' % hex(f['off'])))
+        for k, b in enumerate(data):
+            want[st + (f['off'] or 0) + R + k] = b
+    o = core.run('p2hex', ['-q'] + names + ['a.hex', '-F', fmt] + [x for op in case['opts'] for x in op])
+    d = describe(case)
+    ck = core.crashkind(o)
+    if ck:
+        return core.R(False, ck, 'crash/%s/files' % ck, '%s on %s' % (ck, d))
+    if o.rc != 0:
+        return core.R(False, 'rc', 'rc/files', 'exit %s %s on %s' % (o.rc, o.err[:100].decode('latin-1'), d))
+    text = (core.get('a.hex') or b'').decode('latin-1').replace('\r', '')
+    try:
+        mem, entry, info = DEC[fmt](text)
+    except hexfmt.FmtErr as e:
+        return core.R(False, 'format', 'format/%s/files' % fmt, '%s: %s on %s\n%s' % (fmt, e, d, text[:300]))
+    if mem != want:
+        bad = [a for a in sorted(set(mem) | set(want)) if mem.get(a) != want.get(a)][:3]
+        return core.R(False, 'contents', 'contents/%s/several-files' % fmt, 'decoded contents differ at %s (decoded, model): %s on %s' % ([hex(a) for a in bad], [(mem.get(a), want.get(a)) for a in bad], d))
+    return core.R(True, 'decoded-ok', states=['files/%s/%d' % (fmt, len(names))])
+
+
 def evaluate(case):
+    if 'files' in case:
+        return ev_multifile(case)
     if case['fmt'] in ('DSK', 'Mico8'):
         return ev_wordlist(case)
     core.fresh()
